@@ -77,7 +77,7 @@ func (u *Universe) Compact() map[string]any {
 	for _, r := range u.Repos {
 		tags := map[string]any{}
 		for _, t := range r.Tags {
-			var rq []string
+			rq := []string{}
 			for _, q := range t.Requires {
 				rq = append(rq, q.String())
 			}
